@@ -100,6 +100,10 @@ theorem no_unsorted_map_range : Facts.mapRangeSites.all mapRangeOk = true := by 
 
 theorem no_wallclock_in_state : Facts.timeNowSites.all (fun s => timeNowAllowed.contains s) = true := by decide
 
+/-- no calendar field (year, month, day, …) is read from a time value that is in the host's time zone: values built
+    by `time.Unix*` / `time.Now` are, until `.UTC()` is applied; `ctx.BlockTime()` is UTC -/
+theorem no_local_time_reads : Facts.localTimeReads = [] := by decide
+
 /-- the only goroutines that collect results for consensus state (the v1.7.5 upgrade's workers) append to their
     shared slices under a mutex (before the repair 257c969 they did not, and the set of redeemed accounts depended on
     scheduling); the slices are sorted before use -/
